@@ -166,7 +166,10 @@ def _has_slot(nodes):
     return any(n["t"] == "slot" for n in pgstrat.walk(nodes))
 
 
-def family_sources(nodes, prefix, mid, noext=False):
+SHARED_ROOT = "vf_shared_root.html"
+
+
+def family_sources(nodes, prefix, mid, noext=False, shared_root=False):
     """Print a template whose AST contains block / include regions as an {% extends %} family.
 
     Returns (source of the template itself, {file name: source}). Region ops:
@@ -225,6 +228,11 @@ def family_sources(nodes, prefix, mid, noext=False):
     base = pg.p_nodes(nodes, {"block_printer": bp})
     if noext or not any(n["t"] == "block" for n in pgstrat.walk(nodes)):
         return base, files
+    if shared_root:
+        # every family of the case has ONE common ancestor template: the family's base extends it and puts all of its
+        # content into the ancestor's only block (flat program unchanged)
+        files[SHARED_ROOT] = "{% block vfroot %}{% endblock %}"
+        base = '{%% extends "%s" %%}{%% block vfroot %%}%s{%% endblock %%}' % (SHARED_ROOT, base)
     files["%s_base.html" % prefix] = base
     parent = "%s_base.html" % prefix
     if mid:
@@ -240,11 +248,11 @@ def check_compose(case, col=None):
     sources, files = {}, {}
     for c in prog["comps"]:
         if any(n["t"] in ("block", "include") for n in pgstrat.walk(c["tpl"])):
-            src, f = family_sources(c["tpl"], "f" + c["name"], bool(mids.get(c["name"])), bool(case.get("noext", {}).get(c["name"])))
+            src, f = family_sources(c["tpl"], "f" + c["name"], bool(mids.get(c["name"])), bool(case.get("noext", {}).get(c["name"])), bool(case.get("shared_root")))
             sources[c["name"]] = src
             files.update(f)
     if any(n["t"] in ("block", "include") for n in pgstrat.walk(prog["page"]["tpl"])):
-        src, f = family_sources(prog["page"]["tpl"], "fpage", bool(mids.get("page")), bool(case.get("noext", {}).get("page")))
+        src, f = family_sources(prog["page"]["tpl"], "fpage", bool(mids.get("page")), bool(case.get("noext", {}).get("page")), bool(case.get("shared_root")))
         sources["page"] = src
         files.update(f)
     n_ext = sum(1 for s in sources.values() if "extends" in s)
@@ -282,6 +290,10 @@ def check_compose(case, col=None):
                 labels.append("block_inside_fill_or_slot")
             if any(case.get("noext", {}).values()):
                 labels.append("plain_blocks_in_a_template_without_extends")
+            if SHARED_ROOT in files and sum(1 for v in files.values() if SHARED_ROOT in v) >= 2:
+                labels.append("two_or_more_families_share_an_ancestor_template")
+            if any(x.get("fills") for c_ in prog["comps"] + [prog["page"]] for x in pgstrat.walk(c_["tpl"]) if x["t"] in ("block", "include")):
+                labels.append("region_around_fill_tags")
             if any(x.get("sup") for c_ in prog["comps"] + [prog["page"]] for x in pgstrat.walk(c_["tpl"]) if x["t"] == "text"):
                 labels.append("block_super_inside_component_body")
             col.case(jhash([case, mode]), nt, sample={"mode": mode, "sources": {k: v[:250] for k, v in sources.items()}, "files": {k: v[:200] for k, v in list(files.items())[:4]}, "output": a[:150]} if nt else None, labels=labels)
@@ -414,7 +426,7 @@ def compose_cases(draw):
                     nested = True
         mids[name] = draw(st.integers(0, 99)) < 35
         noext[name] = draw(st.integers(0, 99)) < 20
-    return {"kind": "compose", "program": prog, "mid": mids, "noext": noext, "nested_block": nested}
+    return {"kind": "compose", "program": prog, "mid": mids, "noext": noext, "nested_block": nested, "shared_root": draw(st.integers(0, 99)) < 35}
 
 
 def _strip_nested_regions(nodes, depth=0, inside=False):
